@@ -210,6 +210,33 @@ pub fn c19(a: &Analysis) -> Vec<Violation> {
         }
         // (c) resume completes like an unsuspended transfer: short suspensions inside the C02 envelope
         let put = &sc.puts[pi];
+        // unacknowledged mode with closure: the only recovery the mode has is the retransmission of
+        // the Finished PDU; with nothing lost but Finished PDUs (fewer than the receiver's limit) and
+        // short suspensions the transfer completes as the unsuspended one does
+        if put.unack && sc.ents[put.src].closure && sc.ents[put.src].real && sc.ents[put.dst].real {
+            let base = script_without_user_ops(sc);
+            let only_fin_losses = base.script.iter().all(|e| matches!(e, Entry::Fault { src, dst, sel: Sel::Kind(Kind::Fin, _), act: Act::Drop } if *src == put.dst && *dst == put.src));
+            let nloss = base.script.len() as u32;
+            let tmin = gen::min_timeout_us(sc);
+            let any_susp = sc.script.iter().any(|e| matches!(e, Entry::User { op: UserOp::Suspend, .. }));
+            let d = t.dst_ent.unwrap_or(usize::MAX);
+            let longest = windows(&t.at_src, &user_suspends(a, t.src_ent, t)).iter().chain(windows(&t.at_dst, &user_suspends(a, d, t)).iter()).map(|w| w.3.saturating_sub(w.2)).max().unwrap_or(0);
+            // the receiver repeats its Finished every ACK timeout of its own; the sender gives up
+            // after its own ladder: the repetitions must fit into it
+            let (es, ed) = (&sc.ents[put.src], &sc.ents[put.dst]);
+            let fits = (nloss as i64) * ed.t_ack.max(1) + 1 < es.limit as i64 * es.t_ack.max(1).min(es.t_inact.max(1));
+            if fits && any_susp && only_fin_losses && nloss >= 1 && nloss < sc.ents[put.dst].limit && nloss < sc.ents[put.src].limit && longest <= tmin / 4 && max_suspension_us(sc) <= tmin / 4 && all_resumed(a, t) {
+                for mut x in oracle::c02_put(a, pi, "C19") {
+                    x.clause = match x.clause {
+                        "receiver_no_finished" | "receiver_first_finished_not_success" => "after_resume_receiver_not_successful",
+                        "sender_no_finished" | "sender_first_finished_not_success" => "after_resume_sender_not_successful",
+                        "dest_differs" => "after_resume_file_differs",
+                        _ => "after_resume_not_ended",
+                    };
+                    out.push(x);
+                }
+            }
+        }
         if !put.unack && sc.ents[put.src].real && sc.ents[put.dst].real {
             let base = script_without_user_ops(sc);
             let tmin = gen::min_timeout_us(sc);
@@ -285,6 +312,12 @@ fn build(ctx: &Ctx, tier: Tier, seed: u64) -> Vec<Job<'static>> {
                     x.script.push(Entry::User { ent, op: UserOp::Suspend, put: 0, at: p.clone() });
                     x.script.push(Entry::User { ent, op: UserOp::Resume, put: 0, at: Trigger::Plus(Box::new(p.clone()), d) });
                     sweep.push(x.clone());
+                    // unacknowledged mode with closure: the Finished PDU lost once
+                    if unack && x.ents[0].closure && d <= t / 8 && lim >= 2 {
+                        let mut y = x.clone();
+                        y.script.push(Entry::Fault { src: 1, dst: 0, sel: Sel::Kind(Kind::Fin, 0), act: Act::Drop });
+                        sweep.push(y);
+                    }
                     // combined with a single loss at a seeded place
                     if d <= t / 8 && lim >= 2 && rng.chance(1, 3) {
                         let (s, dd, n) = if rng.chance(2, 3) { (0, 1, rng.below(prof.fwd.len() as u64) as u32) } else { (1, 0, rng.below(prof.rev.len().max(1) as u64) as u32) };
